@@ -38,6 +38,15 @@ def run(chk):
         for c in r.cases:
             c["scope"] = scope
         cases += r.cases
+    # how the instances reach the placer (`instances` list / general `places` list next to Port placeables / mixed) must not
+    # matter: the multi-instance and random programs are also run in the other two forms
+    extra = []
+    for c in cases:
+        if c["scope"] in ("multi", "random"):
+            for via in (1, 2):
+                d = dict(c); d["via_places"] = via; d["scope"] = f"{c['scope']}/places{via}"
+                extra.append(d)
+    cases += extra
     for i, c in enumerate(cases):
         c["id"] = i
     chk.require(len(cases) >= 4000 and any(c["cyclic"] for c in cases) and any(c["arrays"] for c in cases), "case set incomplete")
